@@ -330,6 +330,13 @@ def part_c(res, rng, tier, seed, gen, d):
         n = 40
         nums = numbers_for(rng, n, rng.choice([1, 7]), rng.choice(["none", "block"]))
         lines = l1b.default_lines(fmt, n, st, numbers=nums)
+        if l1b.FMT[fmt]["family"] == "klm":
+            # KLM records carry clock-drift words (2*ms+1 on adjusted lines); their time codes are already UTC: nothing is corrected
+            for i, ln in enumerate(lines):
+                ln.setdefault("extra", {})["satellite_clock_drift_delta"] = rng.choice([0, 1, 501, 2 * 750 + 1, 201]) if i % 2 else 0
+        else:
+            for i, ln in enumerate(lines):   # the POD record's own drift word is not what the correction uses (published table)
+                ln.setdefault("extra", {})["clock_drift_delta"] = rng.choice([0, 40, 65000])
         data = l1b.build_file(fmt, sc, st, lines)
         kwargs = dict(tle_dir=tle_dir, tle_name=tle_name, tle_thresh=40000, interpolate_coords=False)
         kwargs.update(kw)
